@@ -2,9 +2,14 @@
 The parameters of the generalised token grammar of `Spec/F/NoCtl.lean`: which foreign tokens the postprocessors will
 remove.  A raw-HTML placeholder `STX wzxhzdk:N ETX` is admitted by the grammar only when it is LIVE (`N < HtmlBound.h`,
 the number of entries of the raw-HTML stash), i.e. when `RawHtmlPostprocessor` will replace it; the two tokens of the
-footnotes extension only when `HtmlBound.fn` (footnotes enabled: `FootnotePostprocessor` runs).  Every file of `Spec/F`
-and `Lemmas/F` has `variable [HtmlBound]`; the end-to-end theorems instantiate it with the length of the stash that the
-preprocessors return and the footnotes flag (`⟨0, true⟩` for footnotes without fenced_code).
+footnotes extension only when `HtmlBound.fn` (footnotes enabled: `FootnotePostprocessor` runs).  The third parameter
+`HtmlBound.amp` says whether the character domain of the chain admits the AMPERSAND (`domCharA` in `Spec/F/NoCtl.lean`):
+with `amp = false` the domain is "no `<`, no `&`" (the entity pattern never fires, the inline stage leaves the raw-HTML
+stash alone); with `amp = true` it is "no `<`": the entity pattern `&(#[0-9]+|#x[0-9a-fA-F]+|[a-zA-Z0-9]+);` stores the
+entity in the raw-HTML stash and leaves the placeholder `STX wzxhzdk:N ETX` (N = length of the stash at that moment),
+which the grammar admits because `h` is then the length of the FINAL stash.  Every file of `Spec/F`
+and `Lemmas/F` has `variable [HtmlBound]`; the end-to-end theorems instantiate it with the length of the raw-HTML stash
+behind the inline stage, the footnotes flag and the ampersand flag.
 Core Lean only.
 -/
 namespace MdVerif.NoCtlF
@@ -15,6 +20,8 @@ class HtmlBound where
   h : Nat
   /-- is the footnotes extension enabled? -/
   fn : Bool
+  /-- does the character domain admit `&` (the entity pattern is live)? -/
+  amp : Bool
 
 /-- footnote tokens are admitted (a class, so that the lemmas about `FootnoteTreeprocessor` find it by themselves) -/
 class FnOn [HtmlBound] : Prop where
